@@ -207,7 +207,7 @@ def judge(case, per_cell):
                                 f"formatter={fmt}: (PYTHONHASHSEED, history)={first_key} wrote\n  {first}\n{key} wrote\n  {t}\n"
                                 f"value: {gv.render(case['value'])}")
         try:
-            tree = ast.parse(first, mode="eval")
+            tree = ast.parse("(" + first + "\n)", mode="eval")
             val = eval(compile(tree, "<c16>", "eval"), dict(NS))
         except Exception as e:
             raise Violation("unreadable", f"formatter={fmt}: {type(e).__name__}: {e}\n{first}")
